@@ -340,6 +340,33 @@ def run_write_failure(spec, acc):
     try:
         m = long_message(dbx, rng, box, 40, 40)
         n = len(reference_packets(kind, m))
+        # one drain() fails while other senders are queued behind it (write direction hiccup, reads silent): the
+        # client must still come back CONNECTED on a new link
+        others = [long_message(dbx, rng, box, 41 + j, 20) for j in range(2)]
+        for i in range(n):
+            async def scenario2(sim, i=i):
+                sim.spawn("connect")
+                await asyncio.sleep(0.1)
+                conn = sim.conns[-1]
+                conn.drain_fails = i
+                conn.pause_plan = [0, 2, 0, 3, 1, 0, 2, 2, 0, 1] * 3
+                tasks = [sim.spawn("send", mm) for mm in [m] + others]
+                await asyncio.wait(tasks, timeout=2000.0)
+                await asyncio.sleep(30.0)
+                await sim.call("close")
+            sim, stats = simgw.run_session(kind, scenario2)
+            acc.count("sessions")
+            acc.count("write_failures_checked")
+            acc.case((kind, "one_drain_failure_with_queued_senders", i))
+            if stats["error"]:
+                acc.inconclusive_because(f"simulator: {stats['error']}")
+                continue
+            st = sim.status
+            if "DISCONNECTED" in st and (st[-2:] != ["CONNECTED", "CLOSED"] or len(sim.conns) < 2):
+                acc.violation("failing-write-not-followed-by-reconnect", f"{kind}: drain failure at packet {i} with two senders queued behind: status {st}, connections {len(sim.conns)}",
+                              {"client": kind, "failing_drain": i, "status": st})
+            elif "DISCONNECTED" not in st:
+                acc.violation("failing-write-not-followed-by-reconnect", f"{kind}: drain failure at packet {i} was not reported (status {st})", {"client": kind, "failing_drain": i, "status": st})
         for i in range(n):
             async def scenario(sim, i=i):
                 sim.spawn("connect")
